@@ -221,6 +221,7 @@ class CachingMachine(Machine):
         c.failed_cells = set()
         c.fired = 0
         c.sampled = set()
+        c.siblings = []
         c.maxratio = 0.0
         env.stats.add("dims", str(c.dim))
         env.stats.add("families", cfg["func"]["family"])
@@ -367,6 +368,14 @@ class CachingMachine(Machine):
             h2, v2 = self._call(c.twin, p)
             self._compare(c, p, how, val, h2, v2, "twin", RTOL * c.range)
             env.probe("twin_compared")
+            if op.get("decoy") and not op.get("fresh") and len(c.siblings) < 2:
+                # another cache around the twin's *function object*, with a different resolution, stays alive next to it
+                cfg2 = dict(c.cfg)
+                cfg2["res"] = [r * 1.37 for r in c.cfg["res"]]
+                sib = self._make_cache(cfg2, c.ftwin)
+                self._call(sib, p)
+                c.siblings.append(sib)
+                env.probe("sibling_cache_same_function_object")
             if op.get("fresh"):
                 if op.get("decoy"):
                     # an unrelated function cached with the *same* area / resolution / bounds lives and dies just before
